@@ -31,8 +31,21 @@ class Heartbeat(core.Scenario):
         extra = {}
         if p.get('trace') and p['impl'] == 'sync':
             extra['trace_funcs'] = p['trace']       # line-granular preemption inside the heartbeat task
+        from vf.checks.c12_admission import RejectOnHeader
         w = self.world = peer.make_world(p['impl'], server_kwargs=dict(
-            ping_interval=iv, ping_timeout=self.to, monitor_clients=p['monitor'], async_handlers=False), **extra)
+            ping_interval=iv, ping_timeout=self.to, monitor_clients=p['monitor'], async_handlers=False),
+            behaviour=RejectOnHeader(), **extra)
+        if p.get('after_idle'):
+            # an earlier "generation": a session that came and went (or an open the application rejected), then a server
+            # with no sessions for a few ping_timeouts, before the session under observation connects
+            if p['after_idle'] == 'closed_session':
+                s0 = peer.sid_of(peer.open_polling(w))
+                peer.post(w, s0, '1')
+            else:
+                w.http('GET', peer.BASEQ, headers={'X-Reject': '1'})
+                w.run()
+            w.run_until(w.now + 3.5 * self.to + 0.0625)
+        t0 = self.t0 = w.now
         self.delays = [delay_menu(self.to)[d] for d in p['delays']]
         self.mode = p['mode']
         self.ws = None
@@ -62,10 +75,10 @@ class Heartbeat(core.Scenario):
                     peer.post(sc.world, sc.sid, '4still-talking', run=False)
                 else:
                     sc.world.ws_send(sc.ws, '4still-talking')
-            self.app.append(core.Action('client_msg', talk, None, self.iv + 0.125))
+            self.app.append(core.Action('client_msg', talk, None, t0 + self.iv + 0.125))
         if p.get('straddle'):
             # the upgrade handshake starts just before the first PING is due and completes just after it
-            e1 = self.iv
+            e1 = t0 + self.iv
 
             def connect(sc):
                 sc.ws = peer.ws_upgrade(sc.world, sc.sid, run=False)
@@ -81,7 +94,7 @@ class Heartbeat(core.Scenario):
                          core.Action('upgrade', upgrade, lambda sc: '3probe' in peer.ws_frames(sc.ws), e1 + 0.125)]
         if p.get('stall'):
             # the client starts an upgrade (probe answered) and stalls for ever before UPGRADE; it stops polling meanwhile
-            t0 = self.iv + (0.125 if p['stall'] == 'after_ping' else -0.125)
+            ts = t0 + self.iv + (0.125 if p['stall'] == 'after_ping' else -0.125)
 
             def connect2(sc):
                 sc.stopped = True
@@ -90,13 +103,13 @@ class Heartbeat(core.Scenario):
             def probe2(sc):
                 sc.world.ws_send(sc.ws2, '2probe')
             self.ws2 = None
-            self.app += [core.Action('ws_connect', connect2, None, t0),
-                         core.Action('probe', probe2, lambda sc: sc.ws2 is not None and sc.ws2.accepted, t0)]
+            self.app += [core.Action('ws_connect', connect2, None, ts),
+                         core.Action('probe', probe2, lambda sc: sc.ws2 is not None and sc.ws2.accepted, ts)]
         if p.get('send_at') is not None:
-            t = p['send_at']
+            t = t0 + p['send_at']
             self.app.append(core.Action('send', lambda sc: setattr(sc, 'send_call', (sc.world.now, sc.world.call('send', sc.sid, 'app-msg'))),
                                         None, t))
-        last = (len(self.delays) + 1) * (self.iv + self.to + 0.125) + self.iv
+        last = t0 + (len(self.delays) + 1) * (self.iv + self.to + 0.125) + self.iv
         self.horizon = last + 2 * self.iv + 4 * self.to + 1.0
         self.send_call = None
 
@@ -170,15 +183,14 @@ class Heartbeat(core.Scenario):
         trig = '%s/%s/%s' % (p['transport'], '+'.join(p['delays']) or 'none', p['mode'])
         disc = [e for e in w.events if e[0] == 'disconnect' and e[1] == self.sid]
         # (a) PING instants: open + interval, then PONG receipt + interval
-        expect = [iv + 0.125 if p.get('straddle') else iv]      # a PING emitted during the handshake is delivered once it completes
+        t0 = self.t0
+        expect = [t0 + (iv + 0.125 if p.get('straddle') else iv)]      # a PING emitted during the handshake is delivered once it completes
         for k, t in enumerate(self.pong_at):
             expect.append(t + iv)
         punctual = all(d in ('zero', 'early') for d in p['delays'])
         seen = list(self.pings_seen)
         late_idx = [i for i, d in enumerate(p['delays']) if d in ('exact', 'late')]
         upto = (late_idx[0] + 1) if late_idx else len(expect)
-        if self.send_call is not None and self.send_call[0] > iv + to:
-            pass
         if p.get('stall') == 'before_ping':
             pass        # the stalled client is not reading when the PING is emitted
         elif seen[:upto] != expect[:min(upto, len(seen))] or (punctual and len(seen) < len(expect) and not
@@ -191,14 +203,14 @@ class Heartbeat(core.Scenario):
         if punctual and len(seen) > len(p['delays']):
             first_unanswered = seen[len(p['delays'])]
         if p.get('stall'):
-            first_unanswered = iv          # emitted at open + interval whether or not the stalled client reads it
+            first_unanswered = t0 + iv          # emitted at open + interval whether or not the stalled client reads it
         if disc and punctual:
             limit = (first_unanswered + to) if first_unanswered is not None else None
             if limit is None or disc[0][3] < limit - EPS:
                 self.flag('live_peer_dropped', 'disconnect %r at %.3f, before the deadline %s of the first unanswered PING (PINGs %r, PONGs %r)'
                           % (disc[0][2], disc[0][3], limit, seen, self.pong_at), trigger=trig)
         # (c) a peer that stopped answering is dropped in bounded time
-        last_pong = self.pong_at[-1] if self.pong_at else 0.0
+        last_pong = self.pong_at[-1] if self.pong_at else t0
         if punctual:
             if p['monitor']:
                 bound = last_pong + iv + 3 * to
@@ -270,6 +282,11 @@ def param_list(ctx):
                             if seq == () and mode == 'mute':
                                 ps.append({'impl': impl, 'grid': list(g), 'transport': tr, 'delays': [], 'mode': 'vanish',
                                            'monitor': mon, 'send_at': None, 'client_msg': True})
+                            if seq in ((), ('early',)) and mon:
+                                # the session under observation is not the first "generation" of this server
+                                for pre in ('closed_session', 'rejected_open'):
+                                    ps.append({'impl': impl, 'grid': list(g), 'transport': tr, 'delays': list(seq), 'mode': mode,
+                                               'monitor': True, 'send_at': None, 'after_idle': pre})
                             if tr == 'polling' and seq == () and mode == 'mute' and iv > 0.25:
                                 for stall in ('after_ping', 'before_ping'):
                                     for s in (None, iv + to + 0.25):
